@@ -11,7 +11,7 @@ Definition hv (c : conn) (h : Z) : pv := if closed c then PNone else PInt h.
 (* the object before a call: flags from c, no output recorded yet *)
 Definition emb (c : conn) (h : Z) : st :=
   mk_st (hv c h) (PBool (readable c)) (PBool (writable c))
-        PNone PNone PNone PNone PNone PNone PNone PNone PNone.
+        PNone PNone PNone PNone PNone PNone PNone PNone PNone PNone.
 
 (* exception class of a model error (struct.error is shown as ValueError in Gen) *)
 Definition kind_exn (e : err) : exn :=
@@ -21,6 +21,8 @@ Definition kind_exn (e : err) : exn :=
   | EStruct => ValueError
   | EEof => EOFError
   | ETooShort _ => BufferTooShort
+  | ENoLen => TypeError
+  | ESpin => OutOfFuel            (* not an exception: the call does not return *)
   end.
 
 Ltac cases :=
@@ -48,22 +50,72 @@ Lemma gen_bad_length c h :
   bad_message_length (emb c h) = Exc OSError (emb (bad_length c) h).
 Proof. destruct c as [[] r []]; reflexivity. Qed.
 
-(* send_bytes: same checks in the same order, same slice handed to _send_bytes *)
-Lemma gen_send_bytes c h buf off size it n :
-  K_framing.send_bytes (emb c h) buf (PInt off) (optv size) (PInt it) (PInt n) =
-  match send_args c n off size with
-  | inl e => Exc (kind_exn e) (emb c h)
-  | inr (lo, hi) => Ok PNone (set_out_hi (set_out_lo (emb c h) (PInt lo)) (PInt hi))
+(* send_bytes: same checks in the same order, same slice handed to _send_bytes.
+   `it` = m.itemsize, `d0` = first dimension of the caller's buffer (None: it has
+   no dimension, len() raises TypeError), `nbytes` = its size in bytes.  The
+   length the checks use is the BYTE COUNT only on the `itemsize > 1` path (the
+   view is then the flat copy, token 1); otherwise it is the FIRST DIMENSION of
+   the caller's buffer, which is also the view that is sliced (token 0). *)
+Definition dimv (d0 : option Z) : pv := match d0 with Some d => PInt d | None => PErr TypeError end.
+Definition code_len (it : Z) (d0 : option Z) (nbytes : Z) : option Z :=
+  if it >? 1 then Some nbytes else d0.
+Definition code_view (it : Z) : pv := if it >? 1 then mv_flat else mv_orig.
+
+Lemma gen_send_bytes c h buf off size it d0 nbytes :
+  K_framing.send_bytes (emb c h) buf (PInt off) (optv size) (PInt it) (dimv d0) (PInt nbytes) =
+  match code_len it d0 nbytes with
+  | None => Exc (if closed c then OSError else if negb (writable c) then OSError else TypeError) (emb c h)
+  | Some n =>
+      match send_args c n off size with
+      | inl e => Exc (kind_exn e) (emb c h)
+      | inr (lo, hi) =>
+          Ok PNone (set_out_hi (set_out_lo (set_out_base (emb c h) (code_view it)) (PInt lo)) (PInt hi))
+      end
   end.
 Proof.
-  destruct c as [[] r []]; try reflexivity.
-  unfold K_framing.send_bytes, send_args, emb, hv. cbn.
-  destruct (it >? 1); cbn;
-    (destruct (off <? 0); cbn; [reflexivity|];
-     destruct (n <? off); cbn; [reflexivity|];
-     destruct size as [sz|]; cbn; [|reflexivity];
-     destruct (sz <? 0); cbn; [reflexivity|];
-     destruct (off + sz >? n); cbn; reflexivity).
+  unfold code_len, code_view.
+  destruct c as [[] r []]; try (destruct (it >? 1); [|destruct d0]; reflexivity).
+  unfold K_framing.send_bytes, send_args, emb, hv, mv_flat, mv_orig. cbn.
+  destruct (it >? 1); cbn.
+  - destruct (off <? 0); cbn; [reflexivity|].
+    destruct (nbytes <? off); cbn; [reflexivity|].
+    destruct size as [sz|]; cbn; [|reflexivity].
+    destruct (sz <? 0); cbn; [reflexivity|].
+    destruct (off + sz >? nbytes); cbn; reflexivity.
+  - destruct d0 as [n|]; cbn; [|reflexivity].
+    destruct (off <? 0); cbn; [reflexivity|].
+    destruct (n <? off); cbn; [reflexivity|].
+    destruct size as [sz|]; cbn; [|reflexivity].
+    destruct (sz <? 0); cbn; [reflexivity|].
+    destruct (off + sz >? n); cbn; reflexivity.
+Qed.
+
+(* the same, for a buffer of the model: the code decides exactly as send_bytes_sh
+   (same rejection, same rows lo..hi of the same view) *)
+Definition dim0_of (b : pybuf) : option Z := match pb_shape b with [] => None | d :: _ => Some d end.
+
+Lemma code_len_view b :
+  code_len (pb_item b) (dim0_of b) (len (pb_bytes b)) =
+  match view_of b with Some (rows, _) => Some rows | None => None end.
+Proof.
+  unfold code_len, view_of, dim0_of. destruct (pb_item b >? 1); [reflexivity|].
+  destruct (pb_shape b); reflexivity.
+Qed.
+
+Lemma gen_send_bytes_buf c h buf b off size :
+  K_framing.send_bytes (emb c h) buf (PInt off) (optv size)
+                       (PInt (pb_item b)) (dimv (dim0_of b)) (PInt (len (pb_bytes b))) =
+  match view_of b with
+  | None => Exc (if closed c then OSError else if negb (writable c) then OSError else TypeError) (emb c h)
+  | Some (rows, rs) =>
+      match send_args c rows off size with
+      | inl e => Exc (kind_exn e) (emb c h)
+      | inr (lo, hi) =>
+          Ok PNone (set_out_hi (set_out_lo (set_out_base (emb c h) (code_view (pb_item b))) (PInt lo)) (PInt hi))
+      end
+  end.
+Proof.
+  rewrite gen_send_bytes, code_len_view. destruct (view_of b) as [[rows rs]|]; reflexivity.
 Qed.
 
 (* recv_bytes: checks, then whatever _recv_bytes does; None -> _bad_message_length *)
@@ -98,7 +150,7 @@ Lemma gen_recv_bytes_into c h buf off it nitems rb msgsize :
       | PErr e => Exc e (emb c h)
       | _ => if it * nitems <? off + msgsize then Exc BufferTooShort (emb c h)
              else Ok (PInt msgsize)
-                     (set_out_hi (set_out_lo (emb c h) (PInt (off / it))) (PInt ((off + msgsize) / it)))
+                     (set_out_hi (set_out_lo (set_out_base (emb c h) mv_orig) (PInt (off / it))) (PInt ((off + msgsize) / it)))
       end
   end.
 Proof.
